@@ -1797,3 +1797,12 @@ mut("c14-first-header-parent-at-own-height", ["C14"], [(BHVF, "	parent, err := v
 mut("c14-first-header-always-accepted-without-parent", ["C14"], [(BHVF, "	if err != nil {\n		return v.ValidateSingle(first)\n	}\n\n	return v.ValidatePair(&blockHeader{", "	if err != nil {\n		return nil\n	}\n\n	return v.ValidatePair(&blockHeader{")], ["C14.G5"])
 mut("c02-floor-from-tip-height-itself", ["C01", "C02"], [(BM, "				prevNode.Height + 1,\n", "				prevNode.Height,\n")], ["C01.V5", "C02.V2"])
 mut("c02-floor-from-fork-height", ["C01", "C02"], [(BM, "				prevNode.Height + 1,\n", "				int32(backHeight) + 1,\n")], ["C01.V5", "C02.V2"])
+
+# ---- rules added after the eighth batch of seeded changes ----
+mut("c02-rollback-starts-from-in-memory-tip", ["C02"], [(BM, "	header, headerHeight, err := b.cfg.BlockHeaders.ChainTip()\n	if err != nil {\n		return err\n	}\n	bs := &headerfs.BlockStamp{\n		Height:    int32(headerHeight),\n		Hash:      header.BlockHash(),\n		Timestamp: header.Timestamp,\n	}", "	b.newHeadersMtx.RLock()\n	bs := &headerfs.BlockStamp{\n		Height: int32(b.headerTip),\n		Hash:   b.headerTipHash,\n	}\n	b.newHeadersMtx.RUnlock()")], ["C02.V5"])
+mut("c03-checkpoint-refresh-with-slack", ["C03"], [(BM, "		if minCheckpointHeight(allCFCheckpoints) < lastHeight {", "		if minCheckpointHeight(allCFCheckpoints)+wire.CFCheckptInterval <= lastHeight {")], ["C03.V4"])
+mut("c03-quiet-checkpoint-refresh-respelled", ["C03"], [(BM, "		if minCheckpointHeight(allCFCheckpoints) < lastHeight {", "		if lastHeight > minCheckpointHeight(allCFCheckpoints) {")], [])
+mut("c07-index-tip-cached-inside-transaction", ["C07"], [(IDX, "		return rootBucket.Put(tipKey, chainTipHash[:])", "		if err := rootBucket.Put(tipKey, chainTipHash[:]); err != nil {\n			return err\n		}\n		h.indexType = h.indexType\n		return nil")], ["C07.O5"])
+mut("c12-job-error-carried-across-jobs", ["C12"], [("query/worker.go", "		var job *queryJob\n", "		var job *queryJob\n		_ = job\n"), ("query/worker.go", "			jobErr  error\n", ""), ("query/worker.go", "func (w *worker) Run(results chan<- *jobResult, quit <-chan struct{}) {\n", "func (w *worker) Run(results chan<- *jobResult, quit <-chan struct{}) {\n	var jobErr error\n")], ["C12.V2"])
+mut("c13-witness-check-only-for-witness-blocks", ["C06", "C13"], [(Q, "		if err := blockchain.ValidateWitnessCommitment(\n			block,\n		); err != nil {", "		hasWitness := false\n		for _, tx := range block.Transactions() {\n			if tx.MsgTx().HasWitness() {\n				hasWitness = true\n			}\n		}\n		var werr error\n		if hasWitness {\n			werr = blockchain.ValidateWitnessCommitment(block)\n		}\n		if err := werr; err != nil {")], ["C06.G1", "C13.G2"])
+mut("c19-block-ntfn-chan-buffered", ["C19"], [(BM, "		blockNtfnChan: make(chan blockntfns.BlockNtfn),", "		blockNtfnChan: make(chan blockntfns.BlockNtfn, 20),")], ["C19.V2"])
